@@ -261,6 +261,8 @@ func equals(w *worker, t types.Type, x, y value) value {
 		return x == y.(string)
 	case symstr:
 		return strEq(x, y)
+	case opaqueStr:
+		opaqueAbort(x)
 	case *value:
 		return x == y.(*value)
 	case *chanV:
@@ -480,6 +482,9 @@ func writeValue(buf *bytes.Buffer, v value) {
 
 	case symstr:
 		buf.WriteString(symstrDebug(v))
+
+	case opaqueStr:
+		buf.WriteString("‹opaque text›")
 
 	case rval:
 		if v.t == nil {
